@@ -248,7 +248,8 @@ def run_c08(tier, seed):
             "programs_with_all_permutations": sum(1 for s in block_stats if s["exhaustive"]),
             "expected_reject_programs": sum(1 for s in block_stats if s["expect"] == "reject"),
             "programs_with_recursive_type_groups": sum(1 for s in block_stats if s["cyclic_types"]),
-            "families": {f: sum(1 for s in block_stats if s["family"] == f) for f in ("full", "params", "small")},
+            "families": {f: sum(1 for s in block_stats if s["family"] == f)
+                         for f in ("full", "params", "small", "monadic-basis")},
         },
         "fault_kinds": {"hash_key_redraw": evaluations + block_processes},
         "simulated_time": "none (no clock in the code under test); logical steps = top/release steps + processes",
